@@ -1,4 +1,5 @@
 import MindsVerif.Lemmas.ReWord
+import MindsVerif.Lemmas.ReWordAt
 import MindsVerif.Lemmas.SlyLexSound
 import MindsVerif.Gen.LexRe_sqlite
 import MindsVerif.Gen.LexRe_mysql
@@ -21,7 +22,7 @@ needs a character outside the word class, or is a keyword rule `\b s1 … sn \b`
 `ID` rule is `A* B+ A* | …` with `A ⊇ [0-9A-Za-z_]`, `B ⊇ [A-Za-z_]`), and every word `w` over `[0-9A-Za-z_]` that starts with a
 letter or underscore and is not matched class-by-class by one of the keyword rules: `lex c w = ok [ID w]`.
 
-`isKw` is decidable and exact: `C04_kw_is_kw` shows the converse for the live lists on examples; the reserved-word side
+`isKw` is decidable and exact: `C04_kw_examples` checks it on examples for the live lists; the reserved-word side
 (`upper(w) ∈ get_reserved_words()` ⇒ quoted) stays with `phi4_*` of `Props/C04.lean`.
 -/
 namespace MindsVerif.Props.C04Lex
@@ -675,5 +676,166 @@ theorem C04_quoted_is_ID_mysql (body : List Nat) (hne : body ≠ []) (hcp : ∀ 
 theorem C04_quoted_is_ID_mindsdb (body : List Nat) (hne : body ≠ []) (hcp : ∀ x ∈ body, x ≤ 1114111) :
     lex LexRe_mindsdb.cfg (96 :: (bqBody 96 body ++ [96])) = .ok [.tok "ID" false (96 :: (bqBody 96 body ++ [96]))] :=
   C04_quoted_is_ID _ classOKbq_mindsdb body hne hcp
+
+/-! ### [review] non-vacuity on concrete words, and what the theorems do NOT say -/
+
+-- [review] `selected` (a keyword plus two letters) satisfies the hypotheses of `C04_word_is_ID_mindsdb`; the conclusion is
+-- obtained FROM THE THEOREM, not by evaluation
+theorem review_selected_is_ID :
+    lex LexRe_mindsdb.cfg [115, 101, 108, 101, 99, 116, 101, 100] = .ok [.tok "ID" false [115, 101, 108, 101, 99, 116, 101, 100]] := by
+  apply C04_word_is_ID_mindsdb
+  · refine ⟨?_, 115, [101, 108, 101, 99, 116, 101, 100], rfl, ⟨(97, 122), by simp [letterSet], by decide, by decide⟩⟩
+    intro c hc
+    simp only [List.mem_cons, List.not_mem_nil, or_false] at hc
+    refine ⟨(97, 122), by simp [plainSet], ?_, ?_⟩ <;> rcases hc with h | h | h | h | h | h | h | h <;> subst h <;> decide
+  · decide +kernel
+
+-- [review] a quoted name with odd characters: body = back-quote, newline, NUL, U+1F600, `'`, lone surrogate U+D800 —
+-- printed as `` ` `` `` `` ⏎ NUL 😀 ' \ud800 `` ` `` — is one `ID` token (from the theorem)
+theorem review_odd_quoted_name :
+    lex LexRe_mindsdb.cfg (96 :: (bqBody 96 [96, 10, 0, 128512, 39, 55296] ++ [96])) =
+      .ok [.tok "ID" false (96 :: (bqBody 96 [96, 10, 0, 128512, 39, 55296] ++ [96]))] := by
+  apply C04_quoted_is_ID_mindsdb
+  · simp
+  · intro x hx
+    simp only [List.mem_cons, List.not_mem_nil, or_false] at hx
+    rcases hx with h | h | h | h | h | h <;> subst h <;> decide
+
+-- [review] and the encoded text really is what one expects (the inner back-quote is doubled)
+theorem review_bqBody_example : bqBody 96 [96, 10, 0, 128512, 39, 55296] = [96, 96, 10, 0, 128512, 39, 55296] := by decide
+
+-- [review] **scope of `C04_word_is_ID`**: the theorem is about a text that IS the word.  Inside a statement the same word
+-- is an `ID` token here (evaluation on one instance, `select selected from t`) — but that is not what the theorem states,
+-- and it does depend on the neighbours: `1selected`, `$selected` are ONE `ID` token including the prefix (the `ID` class
+-- holds digits and `$`), `@selected` is a VARIABLE, `selected.` / `.selected` are fine.  A general in-context statement
+-- (start position with a previous character outside the `ID` class A and outside `\w`, next character outside A) is
+-- not proved anywhere.
+theorem review_word_in_context :
+    (match lex LexRe_mindsdb.cfg [115, 101, 108, 101, 99, 116, 32, 115, 101, 108, 101, 99, 116, 101, 100, 32, 102, 114, 111, 109, 32, 116] with
+     | .ok segs => tokensFrom 0 segs | _ => []) = [("SELECT", 0, 6), ("ID", 7, 15), ("FROM", 16, 20), ("ID", 21, 22)] ∧
+    (match lex LexRe_mindsdb.cfg [49, 115, 101, 108, 101, 99, 116, 101, 100] with
+     | .ok segs => tokensFrom 0 segs | _ => []) = [("ID", 0, 9)] ∧
+    (match lex LexRe_mindsdb.cfg [36, 115, 101, 108, 101, 99, 116] with
+     | .ok segs => tokensFrom 0 segs | _ => []) = [("ID", 0, 7)] ∧
+    (match lex LexRe_mindsdb.cfg [64, 115, 101, 108, 101, 99, 116, 101, 100] with
+     | .ok segs => tokensFrom 0 segs | _ => []) = [("VARIABLE", 0, 9)] := by
+  decide +kernel
+
+-- [review] **`PlainWord` is ASCII; the live `ID` class is not**: under IGNORECASE+UNICODE `[a-zA-Z_$0-9]` also holds U+017F (ſ),
+-- U+212A (K), U+0130 (İ), U+0131 (ı): `ſ` alone is an `ID` token, `ſelect` is the keyword SELECT.  The theorems are silent
+-- about such words (their hypothesis excludes them); the printer never emits them unquoted, so the round trip is unaffected.
+theorem review_nonascii_id :
+    lex LexRe_mindsdb.cfg [383] = .ok [.tok "ID" false [383]] ∧
+    lex LexRe_mindsdb.cfg [383, 101, 108, 101, 99, 116] = .ok [.tok "SELECT" false [383, 101, 108, 101, 99, 116]] := by
+  decide +kernel
+
+/-! ### inside a text: a plain non-keyword word followed by a stop character is the next token, `ID`
+
+[review F2] the theorems above are about a text that IS the word.  Here the word stands anywhere (`pre` arbitrary) and is
+followed by a character `d` that is no word character, no identifier character and occurs in no class of the keyword-like
+rules — `.` `,` `(` `)` `;` `=` … (decided per character by the kernel: `stopOK`).  White space is not such a character for
+every word: `knowledge base` is ONE keyword token, so a statement for blanks needs the word not to be a prefix of a
+multi-word keyword; not done. -/
+
+def stopOK (c : Cfg) (d : Nat) : Bool :=
+  match splitAtID c.rules with
+  | none => false
+  | some (pre, idr, _) =>
+    !c.word.mem d &&
+    pre.all (fun r =>
+      (needsOut c.word r.re && noChar d r.re) ||
+      (match kwSets r.re with | some sets => !sets.isEmpty && noChar d r.re | none => false) ||
+      (nonNull r.re && disjointR (first r.re) letterSet)) &&
+    (match idShape idr.re with | some (a, b) => !a.mem d && !b.mem d | none => false)
+
+/-- **the next token at a plain non-keyword word that is followed by a stop character is `ID`, and it ends behind the word**
+— every rule list with `classOK`, every stop character with `stopOK`, every left context, every continuation -/
+theorem C04_word_is_ID_at (c : Cfg) (hc : classOK c = true) (d : Nat) (hd : stopOK c d = true)
+    (pre w rest : List Nat) (hw : PlainWord w) (hk : isKw c w = false) :
+    ∃ idr, idr.name = "ID" ∧ idr.ignored = false ∧
+      firstMatch c.word c.rules ⟨pre, w ++ d :: rest⟩ = some (idr, ⟨w.reverse ++ pre, d :: rest⟩) := by
+  unfold classOK at hc
+  unfold stopOK at hd
+  unfold isKw at hk
+  cases hs : splitAtID c.rules with
+  | none => rw [hs] at hc; cases hc
+  | some x =>
+    obtain ⟨prer, idr, post⟩ := x
+    rw [hs] at hc hk hd
+    simp only [Bool.and_eq_true, List.all_eq_true, Bool.not_eq_true'] at hc hd
+    obtain ⟨⟨⟨⟨_, hign⟩, hid⟩, hword⟩, _⟩ := hc
+    obtain ⟨⟨hWd, hpre⟩, hidd⟩ := hd
+    obtain ⟨erules, ename⟩ := splitAtID_spec hs
+    obtain ⟨hall, c0, t0, ew, hlet⟩ := hw
+    have hW : ∀ x ∈ w, c.word.mem x = true := fun x hx => allMemR_sound hword (hall x hx)
+    cases hsh : idShape idr.re with
+    | none => rw [hsh] at hid; cases hid
+    | some ab =>
+      obtain ⟨A, B⟩ := ab
+      rw [hsh] at hid hidd
+      simp only [Bool.and_eq_true, Bool.not_eq_true'] at hid hidd
+      obtain ⟨hA, hB⟩ := hid
+      obtain ⟨alt2, ere⟩ := idShape_spec hsh
+      have hAw : ∀ x ∈ w, A.mem x = true := fun x hx => allMemR_sound hA (hall x hx)
+      have hBw : ∃ x ∈ w, B.mem x = true := ⟨c0, by rw [ew]; exact List.mem_cons_self, allMemR_sound hB hlet⟩
+      have hnone : ∀ r ∈ prer, matchAt c.word r.re ⟨pre, w ++ d :: rest⟩ = none := by
+        intro r hr
+        have hok := hpre r hr
+        simp only [Bool.or_eq_true, Bool.and_eq_true] at hok
+        rcases hok with (ho | hkw) | hf
+        · exact matchAt_none_of_needsOut_at ho.1 ho.2 (fun x hx => mem_sound (hW x hx))
+        · cases hks : kwSets r.re with
+          | none => rw [hks] at hkw; cases hkw
+          | some sets =>
+            rw [hks] at hkw
+            simp only [Bool.and_eq_true, Bool.not_eq_true'] at hkw
+            cases hm : matchAt c.word r.re ⟨pre, w ++ d :: rest⟩ with
+            | none => rfl
+            | some q =>
+              have hne : sets ≠ [] := by
+                intro h0; subst h0; simp at hkw
+              have := kw_match_at hks hne hWd hkw.2 hW hm
+              have hk' := (List.any_eq_false.mp hk) r hr
+              rw [hks] at hk'
+              simp only at this hk'
+              rw [this] at hk'
+              exact absurd rfl hk'
+        · have e : w ++ d :: rest = c0 :: (t0 ++ d :: rest) := by rw [ew]; rfl
+          exact matchAt_none_of_first hf.1 hf.2 (p := ⟨pre, w ++ d :: rest⟩) e hlet
+      have hidm : matchAt c.word idr.re ⟨pre, w ++ d :: rest⟩ = some ⟨w.reverse ++ pre, d :: rest⟩ := by
+        rw [ere]
+        unfold matchAt
+        rw [m_alt]
+        have := idCore_match_stop c.word A B d hidd.1 hidd.2 rest w pre hAw hBw
+        unfold matchAt at this
+        rw [this]
+        rfl
+      refine ⟨idr, ename, hign, ?_⟩
+      rw [erules, firstMatch_skip prer _ hnone]
+      simp [firstMatch, hidm]
+
+/-- the stop characters the printers put behind a name: `.` `,` `(` `)` `;` `=` `<` `>` `+` `*` `/` `%` `[` `]` `{` `}` `:` `~` — for the
+three live rule lists -/
+def stops : List Nat := [46, 44, 40, 41, 59, 61, 60, 62, 43, 42, 47, 37, 91, 93, 123, 125, 58, 126]
+
+theorem stopOK_live :
+    (stops.all fun d => stopOK LexRe_sqlite.cfg d) = true ∧ (stops.all fun d => stopOK LexRe_mysql.cfg d) = true ∧
+    (stops.all fun d => stopOK LexRe_mindsdb.cfg d) = true := by
+  decide +kernel
+
+theorem C04_word_is_ID_at_mindsdb (d : Nat) (hd : d ∈ stops) (pre w rest : List Nat) (hw : PlainWord w)
+    (hk : isKw LexRe_mindsdb.cfg w = false) :
+    ∃ idr, idr.name = "ID" ∧ idr.ignored = false ∧
+      firstMatch LexRe_mindsdb.cfg.word LexRe_mindsdb.cfg.rules ⟨pre, w ++ d :: rest⟩
+        = some (idr, ⟨w.reverse ++ pre, d :: rest⟩) :=
+  C04_word_is_ID_at _ classOK_mindsdb d ((List.all_eq_true.mp stopOK_live.2.2) d hd) pre w rest hw hk
+
+/-- example: in `tab1.col2,` the first token is `ID` `tab1` and, behind the dot, the next is `ID` `col2` (left context `tab1.`) -/
+theorem C04_at_example :
+    (firstMatch LexRe_mindsdb.cfg.word LexRe_mindsdb.cfg.rules ⟨[], [116, 97, 98, 49, 46, 99, 111, 108, 50, 44]⟩).map
+        (fun x => (x.1.name, x.2)) = some ("ID", ⟨[49, 98, 97, 116], [46, 99, 111, 108, 50, 44]⟩) ∧
+    (firstMatch LexRe_mindsdb.cfg.word LexRe_mindsdb.cfg.rules ⟨[46, 49, 98, 97, 116], [99, 111, 108, 50, 44]⟩).map
+        (fun x => (x.1.name, x.2)) = some ("ID", ⟨[50, 108, 111, 99, 46, 49, 98, 97, 116], [44]⟩) := by
+  decide +kernel
 
 end MindsVerif.Props.C04Lex
